@@ -114,6 +114,9 @@ def build_and_audit(log=print):
         reg = load_registry()
         names = sorted({t for ts in reg.values() for t in ts["theorems"]})
         mods = sorted({m for ts in reg.values() for m in ts["modules"]})
+        r = subprocess.run(["lake", "build"] + mods, cwd=LEAN_DIR, capture_output=True, text=True)
+        if r.returncode != 0:
+            raise InfraError("lake build of registered modules failed:\n" + r.stdout[-4000:] + r.stderr[-2000:])
         audit = "\n".join([f"import {m}" for m in mods] + [f"#print axioms {n}" for n in names]) + "\n"
         ap = os.path.join(LEAN_DIR, "Audit.lean")
         open(ap, "w").write(audit)
